@@ -186,6 +186,38 @@ CLAIMED["C20"] = dict(
     technique="exhaustive enumeration of database forms x single deviations x format flag sets on the implementation with a parse-back oracle and external assemblers as second oracle",
     design_ref="3/C20", engine="harness/c20_format.cpp")
 
+CLAIMED["C05"] = dict(
+    level="model_checking",
+    text="Enumerated Compiler programs: shape (straight line, diamonds, loops incl. values live only around the back edge, jump tables, calls with 0..N arguments, "
+         "invoke inside loops) x shrunk register file K x pressure n x argument mode x value mode x every entry of a 120-op alphabet in the slot (fixed/implicit registers, "
+         "RW/W zero-extending ops, 8-bit and high-byte ops, spill-prone memory forms, vector and mask groups, cmpxchg/mul/div/shift-by-CL); each program is interpreted by a "
+         "reference interpreter over named values and compared with the register-allocated code - executed natively (x86-64, fixed input set: return value, memory buffer, "
+         "external-call log) or interpreted by the msim machine simulator (x86-32, AArch64).",
+    note="Programs outside the shapes/alphabet and inputs outside the fixed set are not covered; x86-32 and AArch64 results rely on the harness's simulator.",
+    technique="bounded exhaustive enumeration of programs (shape x register-file size x pressure x alphabet) on the real Compiler with a reference interpreter / native execution / simulator as oracle",
+    design_ref="3/C05", engine="harness/c05_ra.cpp")
+
+CLAIMED["C08"] = dict(
+    level="model_checking",
+    text="Every history of emitter calls (instructions with options/extra register/comment, label ops, align, data, constant pool, comment, section switch) and node-list edits "
+         "(set_cursor, remove_node(s), add_after/before, re-adding) up to depth 2-3 over a 95-104-op alphabet per architecture, from three prefix programs x 5 configurations "
+         "(validation, logger, ...), is issued to Builder and Compiler, finalized, and compared with an Assembler fed the same calls literally and with an Assembler fed the "
+         "harness's own edited node list: first error, section bytes/sizes, label state/offsets, relocations, unresolved fixups; node-list integrity (no cycle, links consistent) after every op.",
+    note="Trusts the harness mirror of the documented node-edit semantics; histories deeper than the bound and FuncNode-level Compiler features are not covered (C05/C06 cover those).",
+    technique="exhaustive enumeration of operation histories up to a depth (full product over the alphabet; deviation layer for configurations) on the implementation, differential against the Assembler",
+    design_ref="3/C08", engine="harness/c08_builder.cpp")
+
+CLAIMED["C14"] = dict(
+    level="exploration",
+    text="Units = short histories of public-API calls on a fresh Assembler/Builder/Compiler (x86-32, x86-64, AArch64) x {no, recording, throwing} error handler x logger: every "
+         "instruction id x operand patterns from a weird-operand alphabet (ids out of range, wrong groups, invalid labels, segment 7, vector index, undefined option bits, bad extra "
+         "register, element types, huge sizes) + invalid bind/align/embed/section/label calls + valid predecessors/successors; every call judged on the spot (return code, handler "
+         "count, holder state before/after, one-shot state) and differentially against a twin that receives only the accepted calls; unrepresentable operands carry a must-reject reason; "
+         "accepted bytes are decoded by objdump/llvm-mc (exactly one instruction, no unrequested component). Each unit runs in a forked child under ASan/UBSan with a CPU watchdog.",
+    note="The alphabet of invalid values is finite (chosen per field boundary); combinations of more than two invalid fields per call are not explored.",
+    technique="exhaustive enumeration of invalid-input alphabets x instruction ids x emitter configurations and short call histories on the implementation with state-differential, sanitizer and disassembler oracles",
+    design_ref="3/C14", engine="harness/c14_invalid.cpp")
+
 PENDING = {
     "C05": "model checking applies and the check exists (checks/c05.py, harness/c05_ra.cpp: exhaustive small Compiler programs executed/simulated before and after register "
            "allocation); on the current tree it still reports genuine defects whose repairs are being prepared, so it is not claimed until it exits 0 with them fixed or listed",
